@@ -281,6 +281,30 @@ CHECKS = {
         "DESIGN.md 4/C20"),
 }
 
+# what later strengthening rounds added to each check (appended to the level text; DESIGN.md 5 has the history)
+ADDED = {
+    "C01": "Also: the box zoo (mc/zoo.py: every public box constructor x flag variant and composite subclass of all nine classes) with 30 derived values each, a cross-class mixing grid (refused or well-typed), and an operand fingerprint around every transition.",
+    "C02": "Also: every zoo value through all laws, n-ary then/tensor, a construction-history differential (values reached through slices, double daggers, recomposition used as operands), operands unchanged.",
+    "C03": "Also: types built from objects of the other classes and values built on the no-argument identity.",
+    "C04": "Also: arrow maps into two-term formal sums, a doubling functor on every zoo value of the free classes, second application, operand unchanged.",
+    "C05": "Also: the call grid on zoo composites (subclasses with their own constructor, foliations) and on all 2/3-box products and wired pairs of zoo boxes of 8 classes.",
+    "C06": "Also: class representatives as rigid diagrams, request histories on one object, members with an inserted snake, and a fork family (two states feeding a box, both orders) over the zoo of every class.",
+    "C07": "Also: families with equal obstruction boxes, a cup directly above a cap, and two equal caps.",
+    "C08": "Also: integer / object / symbolic entry kinds, n-ary products, results that do not alias their operands.",
+    "C09": "Also: bubble functions whose return type depends on the entry, bubbles around composites, object arrays, sums with repeated terms.",
+    "C10": "Also: the tensor-level swap matrix and digit / qudit wires in the circuit class.",
+    "C11": "Also: every pure zoo box (user-defined and hand-built controlled gates) and result aliasing (the returned array is overwritten, the gate must evaluate the same).",
+    "C12": "Also: every zoo box over bits and qubits, batched evaluation and counting, digits / qudits of dimension 2-4, result aliasing.",
+    "C13": "Also: the documented switches of get_counts, counting compared directly with local evaluation, register-renaming and multi-period angle families, second export.",
+    "C14": "Also: ordered and duplicate pairs, the library's own substitution on evaluated values, reuse of lambdified functions, free symbols inside bubbles.",
+    "C15": "Also: the call without the mixed keyword on every single box.",
+    "C16": "Also: every pure zoo box with an oracle for the documented gate set (a refusal is only accepted outside it), fresh-but-equal gates, daggers of whole circuits.",
+    "C17": "Also: negative phases, export of daggers, second export.",
+    "C18": "Also: plain monoidal targets, a CFG with rigid-typed productions, composition rules with mismatched middles, words with domains, several brute-force searches in one process.",
+    "C19": "Also: payloads of every Python kind, the Function values themselves (n-ary products and composites), a call log (every box function called exactly once), 1-tuple outputs.",
+    "C20": "Also: both back-ends on every zoo value, bubbles with re-declared types, layout of opened bubbles.",
+}
+
 PENDING_REASON = ("check not built yet in this session (planned: bounded exhaustive exploration as in "
                   "DESIGN.md section 4); not claimed until its check exists and is silent on the unchanged tree")
 
@@ -307,7 +331,8 @@ def main():
                 "evidence_file": "/verif/evidence/%s.json" % pid,
                 "replay_cmd_template": "/venv/bin/python -m mc.replay {path}",
                 "engine": "mc",
-                "level_claimed": {"category": "model_checking", "text": text, "design_ref": ref},
+                "level_claimed": {"category": "model_checking", "text": text + (" " + ADDED[pid] if pid in ADDED else ""),
+                                  "design_ref": ref},
                 "level_note": note,
                 "technique": tech,
             })
